@@ -264,7 +264,25 @@ def shape_rules(rep: Report, prog: Program) -> None:
                 defs[s.targets[0].id] = s.value
         txt = ' '.join(norm(defs[x]) for x in srcs if x in defs) + norm(l.iter)
         if f"{r1}.rhs.edges()" in txt and f"{r2}.rhs.edges()" in txt and txt.count('is_terminal') >= 2 \
-                and any(isinstance(x, ast.Call) and callee_last(x) == 'add_edge' and norm(x.args[0]) == norm(l.target) for x in ast.walk(l)) \
-                and not any(isinstance(x, (ast.If, ast.Continue, ast.Break)) for x in ast.walk(l)):
-            ok = True
-    rep.ob(rule, f.fq(), 'terminal edges of both rules are all added', f.loc(), ok, '' if ok else 'no unconditional loop adds the terminal edges of both rules')
+                and not any(isinstance(x, (ast.Continue, ast.Break, ast.Return)) for x in ast.walk(l)):
+            # every iteration adds its edge (possibly re-created under a new id), on every path
+            lcfg = cfg_of(f)
+            hdr = lcfg.node_of(l)
+            be = [b for b, lab in lcfg.succ[hdr] if lab == 'iter'][0]
+            tv = norm(l.target)
+            adds = lambda k: lcfg.nodes[k].kind == 'stmt' and any(isinstance(x, ast.Call) and callee_last(x) == 'add_edge' and x.args and norm(x.args[0]) == tv for x in ast.walk(lcfg.nodes[k].stmt))
+            if lcfg.all_paths_pass(be, adds, targets={hdr, lcfg.exit})[0]:
+                ok = True
+                # rebinding of the loop variable inside the loop keeps label and attachment
+                for a in [x for x in ast.walk(l) if isinstance(x, ast.Assign) and any(norm(t) == tv for t in x.targets)]:
+                    v = a.value
+                    same = isinstance(v, ast.Call) and callee_last(v) == 'Edge' and len(v.args) >= 2 and norm(v.args[0]) == f"{tv}.label" and norm(v.args[1]) == f"{tv}.nodes"
+                    rep.ob(rule, f.fq(), norm(a)[:90], f.loc(a), same, 'a re-created edge keeps label and attachment' if same else 'the edge that is added differs from the rule\'s edge in label or attachment')
+                # an id already used in the new right-hand side must not make add_edge fail
+                guarded = any(isinstance(x, ast.Call) and callee_last(x) == 'has_edge_id' for x in ast.walk(l)) or \
+                    any(isinstance(x, ast.Compare) and isinstance(x.ops[0], (ast.In, ast.NotIn)) and norm(x.left).endswith('.id') for x in ast.walk(l)) or \
+                    all(isinstance(x.args[0], ast.Call) and callee_last(x.args[0]) == 'Edge' for x in ast.walk(l) if isinstance(x, ast.Call) and callee_last(x) == 'add_edge')
+                rep.ob(rule, f.fq(), 'terminal edges whose ids coincide are both kept', f.loc(l), guarded,
+                       'an id that is already taken leads to a fresh copy of the edge' if guarded else
+                       'both rules\' terminal edges are added under their own ids: rules that number their edges independently (e0, e1, ...) make add_edge raise although no labels conflict')
+    rep.ob(rule, f.fq(), 'terminal edges of both rules are all added', f.loc(), ok, '' if ok else 'no loop adds every terminal edge of both rules')
